@@ -58,10 +58,14 @@ static void worker (void *a) {
 		case 2: case 3:
 			nsync_mu_rlock (&mu); section (0); nsync_mu_runlock (&mu); break;
 		case 4:
+			vrt_sh_set (48 + vrt_self (), vrt_sleeps_of (vrt_self ()));
 			if (nsync_mu_trylock (&mu)) { vrt_count ("try_ok"); section (1); nsync_mu_unlock (&mu); } else vrt_count ("try_fail");
+			if (vrt_sleeps_of (vrt_self ()) != vrt_sh_get (48 + vrt_self ())) vrt_fail ("C02", "nsync_mu_trylock blocked on the semaphore");
 			break;
 		default:
+			vrt_sh_set (48 + vrt_self (), vrt_sleeps_of (vrt_self ()));
 			if (nsync_mu_rtrylock (&mu)) { vrt_count ("rtry_ok"); section (0); nsync_mu_runlock (&mu); } else vrt_count ("rtry_fail");
+			if (vrt_sleeps_of (vrt_self ()) != vrt_sh_get (48 + vrt_self ())) vrt_fail ("C02", "nsync_mu_rtrylock blocked on the semaphore");
 			break;
 		}
 	}
